@@ -7,7 +7,9 @@ IMPORTS = ['model.PipelineInst']
 ASSUMPTIONS = [
     "cryptographic truth (which stored signature verifies under which key) is computed by the harness with Go's crypto packages directly and handed to the model as a finite table; EUF-CMA of the schemes is assumed, not proved",
     "inspection commands come from a small catalogue (log, create a file, exit n, missing executable, empty); their effect on the run directory is a table; process start/exit semantics are the OS's",
-    "the model's world is the flat run directory (path -> sha256 digest); recording of artifacts in general directory trees is property C13",
+    "which root / intermediate CA entries (and caller-supplied intermediates) yield a certificate is a finite table computed by the harness with encoding/pem and crypto/x509.ParseCertificate directly (the model's certs_ok_tbl says: every entry must be in that table); chain building itself is crypto/x509's",
+    "the model's world is the flat run directory (path -> sha256 digest; an entry that cannot be recorded - a dangling symbolic link - is listed with the digest \"!\" and makes recording fail); recording of artifacts in general directory trees is property C13",
+    "an alteration of the layout FILE that the strict loader refuses is an oracle-only outcome (reject|load-error): the model starts from loaded metadata; loading is property C12",
     "the component models plugged into the pipeline (Threshold, Rules, Glob, Subst, Expiry) are tied to the code by their own checks (C02, C03, C17, C18, C06)",
     "expiry is evaluated by the model at the instant the scenario is rendered (a few ms after the real call); scenarios never place the expiry within 2 s of now",
 ]
